@@ -8,7 +8,7 @@ PROP = 'C20'
 RULE = ('EX engine: all 29 window names x EVERY length N in the bound (plus a fixed ladder of large N in thorough) with default parameters; complete parameter grids '
         '(Kaiser beta, Gaussian / Blackman / Poisson / Poisson-Hanning / Cauchy alpha, Tukey r, Chebyshev attenuation, flat-top mode, Taylor nbar x sll) x every N in '
         '1..64; factory forwarding create_window(N, name, **p) == window_<name>(N, **p); every undocumented keyword and every keyword on a parameter-less window must '
-        'raise; aliases; Window object.  Checks: N finite real samples, symmetry, max <= 1 (== 1 at the centre for odd N >= 3), ENBW >= 1 and == N sum w^2/(sum w)^2, '
+        'raise; aliases; Window object; the second Kaiser implementation (method != numpy) x every N x beta grid.  Checks: N finite real samples, symmetry, max <= 1 (== 1 at the centre for odd N >= 3), ENBW >= 1 and == N sum w^2/(sum w)^2, '
         'closed-form definitions evaluated in scalar Python math. Distinct = digests of the window arrays')
 ASSUMPTIONS = ['closed forms are those documented in the window docstrings / Harris (1978); they are evaluated with scalar math (power-series I0, explicit DFT sums for Dolph-Chebyshev)',
                'symmetry tolerance 1e-12, closed forms 1e-9, Chebyshev 1e-7; flat-top periodic mode is exempt from symmetry and centre clauses',
@@ -47,7 +47,7 @@ def bounds(tier):
 
 
 def expected_clauses(tier):
-    return ['samples', 'symmetric', 'max', 'centre', 'enbw', 'closed_form', 'forward', 'reject', 'alias', 'window_object']
+    return ['samples', 'symmetric', 'max', 'centre', 'enbw', 'closed_form', 'forward', 'reject', 'alias', 'window_object', 'kaiser_alt']
 
 
 def shards(tier):
@@ -81,6 +81,10 @@ def run_shard(desc, R, tier):
                 if N in (8, 9):
                     # a parametrised request must not leak into a later default request (sequence of two calls)
                     eval_point({'kind': 'w', 'name': name, 'N': N, 'params': {}, 'after': p}, R)
+            if name == 'kaiser':
+                # the library's own ("independent") Kaiser implementation, selected by window_kaiser(N, beta, method=<anything but 'numpy'>)
+                for b in (0, 0.5, 2, 8.6, 14):
+                    eval_point({'kind': 'kaiser_alt', 'N': N, 'beta': b}, R)
         for kw in ALL_KEYWORDS:
             if kw not in DOCUMENTED.get(name, []):
                 eval_point({'kind': 'reject', 'name': name, 'N': 16, 'kw': kw}, R)
@@ -112,6 +116,20 @@ def eval_point(pt, R):
             raised = True
         R.check(raised, 'reject', {'name': name if name in DOCUMENTED else 'parameterless', 'kw': kw}, pt, 'accepted', 'raises',
                 'factory accepted a keyword that is not a documented shape parameter of this window', outs=(name, kw))
+        return
+    if kind == 'kaiser_alt':
+        N, b = int(pt['N']), pt['beta']
+        feats = {'N': '1' if N == 1 else ('2' if N == 2 else ('odd' if N % 2 else 'even')), 'beta0': b == 0}
+        R.point(pt)
+        R.calls()
+        try:
+            w = np.asarray(W.window_kaiser(N, b, method='other'))
+        except Exception as e:
+            R.viol('kaiser_alt', dict(feats, exc=type(e).__name__), pt, repr(e), None, "window_kaiser(N, beta, method='other') raised")
+            return
+        ref = np.array(rw.CLOSED['kaiser'](N, beta=b), dtype=float)
+        R.check(w.shape == (N,) and np.all(np.isfinite(w)) and close(w, ref, 0.0, 1e-9), 'kaiser_alt', feats, pt, w, ref,
+                "the library's independent Kaiser implementation does not give the N samples of the Kaiser definition", outs=(w, 'alt'))
         return
     if kind == 'alias':
         a, b, N = pt['a'], pt['b'], int(pt['N'])
